@@ -199,6 +199,17 @@ func runC05(c *core.Ctx) {
 			for _, d := range forgeries(r, sc) {
 				c05Check(c, va, d.bytes, sc.shape, d.name)
 			}
+			// bytes inserted as the payload of the identity's NULL certificate (length field
+			// rewritten to match): the structure still frames, the signed content has changed
+			if cl.kind != "encleaseset" && len(sc.bytes) > 387 && sc.bytes[384] == 0 && sc.bytes[385] == 0 && sc.bytes[386] == 0 {
+				n := 1 + r.Pick(64)
+				f := append([]byte{}, sc.bytes[:385]...)
+				f = append(f, byte(n>>8), byte(n))
+				f = append(f, r.Bytes(n)...)
+				f = append(f, sc.bytes[387:]...)
+				c05Check(c, va, f, sc.shape, "bytes-inserted-into-null-certificate-payload")
+				c.Bucket("forgery/null-certificate-payload-inserted/" + cl.kind)
+			}
 		})
 	}
 
